@@ -1,7 +1,8 @@
 (* C02 — Commit intervals start at off-ramp next, are bounded; roots cover them exactly.
    This file holds the property theorems only; each is closed by [exact] of a lemma proved in Proofs/. *)
 Require Import Verif.Model.Base Verif.Proofs.BaseP Verif.Model.SeqRange Verif.Proofs.SeqRangeP
-               Verif.Model.CommitMerkle Verif.Proofs.CommitMerkleP.
+               Verif.Model.CommitMerkle Verif.Proofs.CommitMerkleP
+               Verif.Model.CommitSM Verif.Model.C02Hist Verif.Proofs.C02HistP.
 
 (* ---------- SeqNumRange.Limit (as repaired by fixes/F02.patch) ---------- *)
 
@@ -154,3 +155,82 @@ Theorem C02_root_exact_except_known : forall h zero k s e ms addr k' s' e' a r,
              mroot h zero hs = Some r.
 Proof. exact observe_one_exact_except_known. Qed.
 Print Assumptions C02_root_exact_except_known.
+
+(* ---------- histories of rounds (one long-lived Processor; the previous outcome is whatever the history left) ---------- *)
+
+(* For EVERY history of rounds from EVERY first outcome: if the history ends in the selecting state, the next round
+   writes exactly report_ranges of ITS OWN agreed maps, with the type and the empty fields of a fresh selection. No
+   field of the previous outcome (carried cursor, recorded intervals, roots, attempts, RMN config) and no earlier
+   round enters. *)
+Theorem C02_hist_selection_exact : forall max n prev0 rs q c,
+  next_state (o_type (run max n prev0 rs)) = Selecting ->
+  let o := run max n prev0 (rs ++ [(q, Some c)]) in
+  (o_ranges o, o_off o) = report_ranges (c_on c) (c_off c) n /\
+  o_type o = T_selected /\ o_roots o = [] /\ o_attempts o = 0%N /\ o_sigs o = [].
+Proof. exact hist_selection_exact. Qed.
+Print Assumptions C02_hist_selection_exact.
+
+(* The selection is a function of the round's agreed maps only: two arbitrary histories (other first outcome, other
+   rounds, other attempt limit, other query) that end in the selecting state give the same outcome for the same
+   consensus observation. *)
+Theorem C02_hist_selection_indep : forall max max' n prev0 prev0' rs rs' q q' c,
+  next_state (o_type (run max n prev0 rs)) = Selecting ->
+  next_state (o_type (run max' n prev0' rs')) = Selecting ->
+  run max n prev0 (rs ++ [(q, Some c)]) = run max' n prev0' (rs' ++ [(q', Some c)]).
+Proof. exact hist_selection_indep. Qed.
+Print Assumptions C02_hist_selection_indep.
+
+(* The interval clause of C02 at history level: after any history, chain k gets [a,b] iff a is THIS round's agreed
+   off-ramp next of k, this round agrees on an on-ramp latest m >= a and b = min(m, a+n-1); a chain lacking either
+   agreed number in this round gets no interval whatever earlier outcomes carried for it; no chain twice; the carried
+   cursor is this round's agreed off-ramp map restricted to chains with an agreed on-ramp number. *)
+Theorem C02_hist_selection_characterised : forall max n prev0 rs q c,
+  next_state (o_type (run max n prev0 rs)) = Selecting ->
+  NoDup (map fst (c_off c)) -> (forall k m, alookup k (c_on c) = Some m -> u64 m) -> (1 <= n)%N ->
+  let o := run max n prev0 (rs ++ [(q, Some c)]) in
+  (forall k a b, In (k, (a, b)) (o_ranges o) <->
+     exists m, In (k, a) (c_off c) /\ alookup k (c_on c) = Some m /\ (a <= m)%N /\ b = N.min m (a + n - 1)) /\
+  (forall k, (alookup k (c_on c) = None \/ ~ In k (map fst (c_off c))) -> ~ In k (map fst (o_ranges o))) /\
+  NoDup (map fst (o_ranges o)) /\
+  (forall k v, In (k, v) (o_off o) <-> In (k, v) (c_off c) /\ alookup k (c_on c) <> None).
+Proof. exact hist_selection_characterised. Qed.
+Print Assumptions C02_hist_selection_characterised.
+
+(* Invariant of every history that is not handed a ReportIntervalsSelected outcome from outside: whenever the outcome
+   sends the next round to the building state, its intervals and cursor are those a round OF THIS HISTORY selected from
+   its own agreed maps (retry rounds keep them unchanged). *)
+Theorem C02_hist_ranges_provenance : forall max n prev0 rs,
+  o_type prev0 <> T_selected ->
+  let o := run max n prev0 rs in
+  o_type o = T_selected ->
+  exists q c, In (q, Some c) rs /\ (o_ranges o, o_off o) = report_ranges (c_on c) (c_off c) n.
+Proof. exact hist_ranges_provenance. Qed.
+Print Assumptions C02_hist_ranges_provenance.
+
+(* Processor.getObservation: merkle roots are observed only in a non-retry building round, only for an interval the
+   previous outcome recorded, from a complete read in THIS round's reader answer with THIS round's address binding
+   and chain support. *)
+Theorem C02_hist_observation_roots : forall h zero supported known sd curse next expected reader addr fch prev retry k s e a r,
+  (forall k s e, In (k, (s, e)) (o_ranges prev) -> u64 e) ->
+  In (k, (s, e), a, r)
+     (ob_roots (get_observation h zero supported known sd curse next expected reader addr fch prev retry)) ->
+  next_state (o_type prev) = Building /\ retry = false /\
+  exists sup ms hs,
+    supported = Some sup /\ In k sup /\ In (k, (s, e)) (o_ranges prev) /\
+    reader k (s, e) = Some ms /\ addr k = Some a /\ complete_read ms s e hs /\ mroot h zero hs = Some r.
+Proof. exact observation_roots_sound. Qed.
+Print Assumptions C02_hist_observation_roots.
+
+(* Composition over histories: a root observed after any history (not started in the building state) is the root of
+   an interval that a round of that history selected from its agreed maps, read completely in the observing round. *)
+Theorem C02_hist_roots_for_selected : forall h zero max n prev0 rs supported known sd curse next expected reader addr fch retry k s e a r,
+  o_type prev0 <> T_selected ->
+  let prev := run max n prev0 rs in
+  (forall k s e, In (k, (s, e)) (o_ranges prev) -> u64 e) ->
+  In (k, (s, e), a, r)
+     (ob_roots (get_observation h zero supported known sd curse next expected reader addr fch prev retry)) ->
+  exists q c ms hs,
+    In (q, Some c) rs /\ In (k, (s, e)) (fst (report_ranges (c_on c) (c_off c) n)) /\
+    reader k (s, e) = Some ms /\ complete_read ms s e hs /\ mroot h zero hs = Some r /\ addr k = Some a.
+Proof. exact hist_roots_for_selected. Qed.
+Print Assumptions C02_hist_roots_for_selected.
